@@ -321,7 +321,7 @@ def run_cases(run, cases, exe, drv):
                 elif cur is not None:
                     r = results[cur]
                     r["lines"].append(line)
-                    for tag in ("load", "wf", "levels", "sets", "totals", "removal", "merge", "inserts", "meminserts", "check"):
+                    for tag in ("load", "wf", "levels", "sets", "totals", "removal", "merge", "inserts", "meminserts", "synthreq", "check"):
                         if line.startswith(tag + " "):
                             r[tag] = line
             if rc != 0 or rc2 != 0:
@@ -363,6 +363,10 @@ def judge(run, cases, results):
                 run.violation("correspondence:memory-insert:%s" % kind,
                               "model of hwloc__find_insert_memory_parent / hwloc___attach_memory_object_by_nodeset (Topo/MemAttach.v) disagrees with the implementation on %s" % name,
                               script + "\n--- verdict\n" + r["meminserts"][:2000], no_input=(r["wf"] or "").startswith("wf ok"))
+            elif r.get("synthreq") is not None and not r["synthreq"].startswith("synthreq ok"):
+                run.violation("correspondence:synthetic-requests:%s" % kind,
+                              "model of the synthetic backend (parser Text/Synthetic.v + request generation Topo/SynthBuild.v) disagrees with the objects the backend hands to the core on %s" % name,
+                              script + "\n--- verdict\n" + r["synthreq"][:2000], no_input=(r["wf"] or "").startswith("wf ok"))
             elif r.get("sets") != "sets ok" or r.get("totals") != "totals ok" or r.get("removal") != "removal ok" or r.get("merge") != "merge ok":
                 run.violation("correspondence:sets-pipeline:%s" % kind,
                               "model of the set post-processing (root fix-up, propagate_nodeset, fixup_sets, remove_unused_sets, filter_bridges, remove_empty, KEEP_STRUCTURE merging, propagate_total_memory) disagrees with the implementation on %s" % name,
@@ -372,6 +376,9 @@ def judge(run, cases, results):
                 m = re.match(r"inserts ok n=(\d+)", r.get("inserts") or "")
                 if m:
                     run.cov["insertions_replayed_in_model"] = run.cov.get("insertions_replayed_in_model", 0) + int(m.group(1))
+                m = re.match(r"synthreq ok n=(\d+)", r.get("synthreq") or "")
+                if m:
+                    run.cov["synthetic_requests_compared_with_model"] = run.cov.get("synthetic_requests_compared_with_model", 0) + int(m.group(1))
                 m = re.match(r"meminserts ok n=(\d+)", r.get("meminserts") or "")
                 if m:
                     run.cov["memory_insertions_replayed_in_model"] = run.cov.get("memory_insertions_replayed_in_model", 0) + int(m.group(1))
